@@ -245,7 +245,8 @@ class Vals:
         return self._mk("ValueObject", {"value": pd, "isModule": SBool(z3.Bool(name + ".isModule"))}, name)
 
     def func(self, it, name="f"):
-        return self._mk("ValueFunc", {"name": name, "secure": True}, name)
+        # (object invariant of ValueFunc: name, secure flag, creation serial)
+        return self._mk("ValueFunc", {"name": name, "secure": True, "serial": SInt(z3.Int("serial." + name))}, name)
 
     def opaque(self, it, name="v", excluding=()):
         """A value of any kind other than the classes named in `excluding` (which the harness enumerates
@@ -411,7 +412,8 @@ class StubFuncs:
         self.cls.methods["getArgNames"] = Builtin("StubFunc.getArgNames", lambda it, a, k, n: PList(list(a[0].fields["argnames"])))
 
     def func(self, name, argnames, behaviour):
-        o = Obj(self.cls, {"name": name, "secure": True, "argnames": list(argnames), "behaviour": behaviour, "info": ""}, label=name)
+        o = Obj(self.cls, {"name": name, "secure": True, "argnames": list(argnames), "behaviour": behaviour, "info": "",
+                           "serial": SInt(z3.Int("serial." + name))}, label=name)
         o.fresh = False
         return o
 
